@@ -10,7 +10,7 @@ from ..harness import qcall
 
 ID = "C02"
 LEVEL = "exploration"
-BUDGET = {"quick": 1600, "thorough": 450000}
+BUDGET = {"quick": 4800, "thorough": 450000}
 TECHNIQUE = "property-based testing: generated header variants, reader metadata compared with the generator's spec"
 RULE = ("Hypothesis-generated 2D/3D plotfiles with header variants (AMReX 17-digit style with trailing blanks or "
         "shortest-repr style, refinement-ratio line longer than needed, repeated field names, non-zero origin, "
